@@ -5,6 +5,7 @@ CONSTANTS N = 3
  FullY = FALSE
  Pep709 = FALSE
  Skeleton = FALSE
+ ChainOnly = FALSE
  AnyOrder = TRUE
  AllOptions = FALSE
 INVARIANT EmitProgram
